@@ -45,29 +45,28 @@ theorem fshift_sshape_axis_eq : Src.C07.fshift_sshape_axis = ((shiftExtentAlongA
   unfold Src.C07.fshift_sshape_axis shiftExtentAlongAxis
   simp
 
-/-- `parabolic_max`, 2-D branch: for every row length `ns ≥ 1` and every position `imax` of the maximum -/
-theorem pmax_2d_eq (imax ns : Nat) (hns : 1 ≤ ns) : Src.C07.pmax_2d (imax : Int) (ns : Int) = pmaxPlan true imax ns := by
+/-- `parabolic_max`, 2-D branch (`np.maximum(imax - 1, 0)`, `imax`, `np.minimum(imax + 1, ns - 1)`): for every row length
+`ns ≥ 1` and every position `imax` of the maximum -/
+theorem pmax_2d_eq (imax ns : Nat) (hns : 1 ≤ ns) : Src.C07.pmax_2d (imax : Int) (ns : Int) = pmaxPlan imax ns := by
   unfold Src.C07.pmax_2d pmaxPlan pmaxIdx pmaxMatrix
   have h4 : Int.tdiv (2 * 1) 2 = 1 := by decide
-  simp only [h4, List.flatten, List.cons_append, List.nil_append, List.append_nil, if_true, List.cons.injEq, Prod.mk.injEq,
-    true_and, and_true]
-  and_intros <;> omega
+  simp only [h4, List.flatten, List.cons_append, List.nil_append, List.cons.injEq, Prod.mk.injEq, true_and, and_true]
+  and_intros <;> first | omega | rfl
 
-/-- `parabolic_max`, 1-D branch (the clipped positions of this branch sit inside a subscript the translator cannot select) -/
-theorem pmax_1d_eq (imax ns : Nat) (hns : 1 ≤ ns) : Src.C07.pmax_1d (imax : Int) (ns : Int) = pmaxPlan false imax ns := by
-  unfold Src.C07.pmax_1d pmaxPlan pmaxMatrix
+/-- `parabolic_max`, 1-D branch (`np.maximum(np.minimum(imax + [-1, 0, 1], ns - 1), 0)`): the same three positions, for
+every valid position `imax < ns` of the maximum -/
+theorem pmax_1d_eq (imax ns : Nat) (hi : imax < ns) : Src.C07.pmax_1d (imax : Int) (ns : Int) = pmaxPlan imax ns := by
+  unfold Src.C07.pmax_1d pmaxPlan pmaxIdx pmaxMatrix
   have h4 : Int.tdiv (2 * 1) 2 = 1 := by decide
-  simp only [h4, List.flatten, List.cons_append, List.nil_append, List.append_nil, if_false, Bool.false_eq_true, List.cons.injEq,
-    Prod.mk.injEq, true_and, and_true]
-  and_intros <;> omega
+  simp only [h4, List.flatten, List.cons_append, List.nil_append, List.cons.injEq, Prod.mk.injEq, true_and, and_true]
+  and_intros <;> first | omega | rfl
 
 /-- `shift_computed = (ipeak - np.floor(sig_len / 2)) * -1` = the model's `corrmaxShift` (at integer peak positions) -/
 theorem corrmax_shift_eq (ipeak : Int) (n : Nat) : Src.C07.corrmax_shift ipeak (n : Int) = corrmaxShift n ipeak := by
   unfold Src.C07.corrmax_shift corrmaxShift corrmaxZeroLag
-  simp only [Int.fdiv_eq_ediv_of_nonneg _ (by omega : (0 : Int) ≤ 2)]
-  have h : (((n / 2 : Nat) : Nat) : Int) = (n : Int) / 2 := by omega
-  show (ipeak - (n : Int) / 2) * (-1) = -(ipeak - ((n / 2 : Nat) : Int))
-  rw [h]; omega
+  have h2 : ∀ a : Int, Int.fdiv a 2 = a / 2 := fun a => Int.fdiv_eq_ediv_of_nonneg _ (by omega)
+  simp only [h2]
+  omega
 
 theorem shift_waveform_loop_aux (N : Nat) (fuel : Nat) : ∀ i : Nat, i ≤ N → N - i < fuel →
     Src.C07.shift_waveform_loop_loop1 (N : Int) (N : Int) fuel (i : Int)
